@@ -59,7 +59,9 @@ def check_backward(ctx: Ctx):
     pre = rand_pre(rng, P, P.leaves())
     report = P.leaves()
     for dtype in ((torch.float64,) if P.big else (torch.float64, torch.float32)):
-        rerr, rg, _ = real_backward(P, dtype, tensors, inputs, agg, chunk, False, pre, report)
+        kind = rng.choice(["list", "tuple", "gen", "iter"])      # `inputs: Iterable[Tensor]` (one-shot ones included)
+        ctx.count("inputs_passed_as", kind)
+        rerr, rg, _ = real_backward(P, dtype, tensors, inputs, agg, chunk, False, pre, report, inputs_kind=kind)
         # twin graph driven by torch.autograd
         ts = P.build(dtype)
         set_pre(P, ts, pre, dtype)
@@ -233,6 +235,47 @@ def check_smooth(ctx: Ctx):
             return
 
 
+def check_top_of_range(ctx: Ctx):
+    """finite derivatives near the top of the dtype's range (each gradient entry finite, their SUM over the Jacobian
+    not): the linear aggregators must still leave exactly what torch.autograd leaves"""
+    from torchjd import backward, mtl_backward
+    from torchjd.aggregation import Constant, Mean, Sum
+    rng = ctx.rng
+    dtype = rng.choice([torch.float32, torch.float64])
+    top = float(torch.finfo(dtype).max)
+    k = rng.choice([2, 3, 4, 6])
+    c = [top * rng.choice([0.3, 0.45, 0.6]) * rng.choice([1, 1, 1, -1]) for _ in range(k)]
+    name, mk, w = rng.choice([("Sum", lambda: Sum(), [1.0] * k), ("Mean", lambda: Mean(), [1.0 / k] * k),
+                              ("Constant", lambda: Constant(torch.tensor([1.0] + [0.5] * (k - 1), dtype=dtype)),
+                               [1.0] + [0.5] * (k - 1))])
+    api = rng.choice(["backward", "mtl_backward"])
+
+    def build():
+        x = torch.ones(k, dtype=dtype, requires_grad=True)
+        cs = torch.tensor(c, dtype=dtype)
+        return x, x * cs
+    x, y = build()
+    err = None
+    try:
+        if api == "backward":
+            backward([y], mk(), parallel_chunk_size=rng.choice([None, 1, 2]))
+        else:
+            p = torch.ones(1, dtype=dtype, requires_grad=True)
+            losses = [(y[i] * 1.0 + p.sum() * 0.0) for i in range(k)]
+            mtl_backward(losses, [y], mk(), tasks_params=[[p]] * 1 + [[] for _ in range(k - 1)], shared_params=[x])
+    except Exception as e:  # noqa: BLE001
+        err = f"{type(e).__name__}: {e}"
+    x2, y2 = build()
+    torch.autograd.backward([y2], grad_tensors=[torch.tensor(w, dtype=dtype)])
+    ctx.case(("top", api, name, k, str(dtype)), nontrivial=True)
+    ctx.count("top_of_range", f"{api}/{name}")
+    rp = {"api": api, "family": "top-of-range", "aggregator": name, "dtype": str(dtype), "diag_of_jacobian": c}
+    if err is not None or x.grad is None or not torch.equal(x.grad, x2.grad):
+        ctx.violation(f"{api} with {name} on a Jacobian diag({c}) of finite entries near the top of {dtype}: torchjd "
+                      f"{'raised ' + err if err else 'left ' + str(None if x.grad is None else x.grad.tolist())}; "
+                      f"torch.autograd leaves {x2.grad.tolist()}", rp)
+
+
 def main(ctx: Ctx):
     ctx.lean_gate()
     n = 150 if ctx.tier == "quick" else 25000
@@ -243,10 +286,12 @@ def main(ctx: Ctx):
         if i % 3 == 0:
             check_smooth(ctx)
             check_mean_any_m(ctx)
+            check_top_of_range(ctx)
     return ctx.finish(
         rule="twin graphs: every P-int program is built twice from the same leaf values; one copy is driven by "
              "torchjd backward/mtl_backward with Constant(w) (negative and zero weights) / Sum / Mean, the twin by "
              "torch.autograd.backward(tensors, grad_tensors=w split per tensor, inputs=...) resp. "
              "loss_i.backward(inputs=task_params_i); .grad compared exactly (None == zeros) and with the Lean model; "
-             "plus smooth P-float programs (tanh/exp/softplus/norm/div) compared to 1e-10 relative",
+             "plus smooth P-float programs (tanh/exp/softplus/norm/div) compared to 1e-10 relative; inputs passed as list / "
+             "tuple / generator / iterator; diagonal Jacobians with finite entries near the top of the dtype's range",
         trusted=TRUSTED + ["torch.autograd.backward is the oracle the property names"])
